@@ -115,7 +115,7 @@ def sip13(data: bytes) -> int:
 
 def hstream(query: bytes, np: int, types):
     """what Parse::get_hash feeds the hasher (query.hash, num_params.hash, param_types.hash)"""
-    return query + b"\xff" + struct.pack("<h", np) + struct.pack("<Q", len(types)) + b"".join(struct.pack("<i", t) for t in types)
+    return struct.pack("<Q", len(query)) + query + struct.pack("<h", np) + struct.pack("<Q", len(types)) + b"".join(struct.pack("<i", t) for t in types)
 
 
 def old_key(query: bytes, np: int, types):
